@@ -522,6 +522,13 @@ impl<S: Storage> Builder<S> {
 
             CopyTo([src, child]) => CopyToFileExecutor {
                 source: self.node(src).as_ext_source(),
+                column_names: (self.egraph[child].data.schema.iter())
+                    .map(|id| match self.node(*id) {
+                        Expr::Column(c) => (self.catalog().get_column(c))
+                            .map_or_else(|| c.to_string(), |col| col.name().to_string()),
+                        _ => "?column?".to_string(),
+                    })
+                    .collect(),
             }
             .execute(self.build_id(child)),
 
